@@ -272,8 +272,14 @@ def run_probes(repo, extra=None):
                     what = it[2] if it[0] in ("table", "macro", "str", "dtype") else (it[3] if it[0] == "local" else "raw block %d" % j)
                     FAILED.append({"file": cfile, "item": str(what), "kind": it[0], "message": msg1[-800:]})
                     # the previous values, at the same place in the file (so that nothing else is rebuilt)
-                    names = {"macro": [it[2]], "local": [it[3]] if it[0] == "local" else [],
-                             "dtype": [it[2] + "_max_read", it[2] + "_block_size", it[2] + "_extra_size"]}.get(it[0], [])
+                    if it[0] == "macro":
+                        names = [it[2]]
+                    elif it[0] == "local":
+                        names = [it[3]]
+                    elif it[0] == "dtype":
+                        names = [it[2] + "_max_read", it[2] + "_block_size", it[2] + "_extra_size"]
+                    else:
+                        names = []
                     for nm in names:
                         if nm in OLD_DEFS:
                             defs.append((nm, OLD_DEFS[nm]))
@@ -339,19 +345,21 @@ def main():
     if r is None:
         json.dump({"global": True, "failed": FAILED}, open(status, "w"))
         return 2
+    if FAILED:
+        # whatever a failed item used to define and nothing defines now (raw blocks: their names are not known in
+        # advance) keeps its previous value, at the end of the file
+        defs, tables = r
+        have = set(n for n, _ in defs) | set(n for n, _ in tables) | set(n + "_len" for n, _ in tables)
+        for n, v in OLD_DEFS.items():
+            if n not in have and not (n.endswith("_len") and n[:-4] in OLD_TABLES):
+                defs.append((n, v))
+        for n, v in OLD_TABLES.items():
+            if n not in have:
+                tables.append((n, v))
     text = render(*r)
     old = None
     if os.path.exists(a.out):
         old = open(a.out).read()
-    if FAILED and old is not None:
-        # keep the previous definitions of what could not be read (they are stale: the checks of the properties
-        # anchored in those files report the broken tie)
-        import re
-        have = set(re.findall(r"^Definition (\w+) ", text, re.M))
-        blocks = re.findall(r"^(Definition (\w+) [^\n]*(?:\n(?!Definition ).*)*)", old, re.M)
-        stale = [blk.rstrip() for blk, name in blocks if name not in have]
-        if stale:
-            text = text.rstrip("\n") + "\n\n(* not readable from the source in this run: previous values kept *)\n" + "\n".join(stale) + "\n"
     json.dump({"global": False, "failed": FAILED}, open(status, "w"))
     if old != text:
         with open(a.out, "w") as f:
